@@ -34,34 +34,49 @@ func ruleRoundTable(c *Ctx) {
 			loop = f
 		}
 	}
-	if loop == nil || len(fd.Body.List) != 1 || loop.Cond != nil || len(loop.Body.List) != 4 {
-		c.undecided("round.shape", fd, "round must be: for { var adjust; switch rm; if adjust != 0 {...}; return }")
+	if loop == nil || len(fd.Body.List) != 1 || loop.Cond != nil || len(loop.Body.List) < 4 {
+		c.undecided("round.shape", fd, "round must be: for { decide adjust (switch on the mode); if adjust != 0 {...}; return }")
 		return
 	}
-	decl, ok1 := loop.Body.List[0].(*ast.DeclStmt)
-	sw, ok2 := loop.Body.List[1].(*ast.SwitchStmt)
-	ifAdj, ok3 := loop.Body.List[2].(*ast.IfStmt)
-	ret, ok4 := loop.Body.List[3].(*ast.ReturnStmt)
-	if !ok1 || !ok2 || !ok3 || !ok4 {
-		c.undecided("round.shape", fd, "round must be: for { var adjust; switch rm; if adjust != 0 {...}; return }")
-		return
-	}
+	// the statement `if adjust != 0 {...}` splits the body: everything before it decides the adjustment
 	recv := recvObj(p, fd)
 	ps := paramObjs(p, fd) // shift, neg, sig, exp, trunc, digit
-	if len(ps) != 6 || p.objOf(sw.Tag) != recv {
-		c.undecided("round.shape", fd, "round(shift, neg, sig, exp, trunc, digit) with switch on the mode expected")
-		return
-	}
+	idxIf := -1
 	var adjObj types.Object
-	if gd, ok := decl.Decl.(*ast.GenDecl); ok && len(gd.Specs) == 1 {
-		if vs := gd.Specs[0].(*ast.ValueSpec); len(vs.Names) == 1 {
-			adjObj = p.Info.Defs[vs.Names[0]]
+	for i, s := range loop.Body.List {
+		if ifs, ok := s.(*ast.IfStmt); ok && ifs.Init == nil {
+			if x, op, k, ok := p.normCmp(ifs.Cond); ok && op == token.NEQ && k.Sign() == 0 {
+				if o := p.objOf(x); o != nil && isIntType(o.Type()) && idxIf < 0 {
+					isParam := false
+					for _, po := range ps {
+						if po == o {
+							isParam = true
+						}
+					}
+					if !isParam {
+						idxIf, adjObj = i, o
+					}
+				}
+			}
 		}
 	}
-	if adjObj == nil {
-		c.undecided("round.shape", fd, "adjust variable not found")
+	var sw *ast.SwitchStmt
+	var ifAdj *ast.IfStmt
+	var ret *ast.ReturnStmt
+	if idxIf > 0 && idxIf == len(loop.Body.List)-2 {
+		ifAdj = loop.Body.List[idxIf].(*ast.IfStmt)
+		ret, _ = loop.Body.List[idxIf+1].(*ast.ReturnStmt)
+		for _, s := range loop.Body.List[:idxIf] {
+			if x, ok := s.(*ast.SwitchStmt); ok && x.Tag != nil && p.objOf(x.Tag) == recv {
+				sw = x
+			}
+		}
+	}
+	if sw == nil || ifAdj == nil || ret == nil || len(ps) != 6 {
+		c.undecided("round.shape", fd, "round(shift, neg, sig, exp, trunc, digit) must be: for { decide adjust with a switch on the mode; if adjust != 0 {...}; return }")
 		return
 	}
+	decide := loop.Body.List[:idxIf]
 	modes := []string{"ToNearestEven", "ToNearestAway", "ToZero", "AwayFromZero", "ToNegativeInf", "ToPositiveInf"}
 	digitClasses := []struct {
 		name string
@@ -108,7 +123,7 @@ func ruleRoundTable(c *Ctx) {
 						st.vars[ps[4]] = avInt{t}
 						st.vars[ps[5]] = normSet(append([]int64{}, dc.vals...))
 						in.curFn = append(in.curFn, fd)
-						flows := in.execBlock([]ast.Stmt{decl, sw}, st)
+						flows := in.execBlock(decide, st)
 						got := map[string]bool{}
 						for _, f := range flows {
 							if f.kind != flowNext {
